@@ -115,6 +115,7 @@ KINDS = ["ez", "nz", "eq", "ne", "lt", "ge", "if-two-futures", "loop", "loop-nam
 
 
 EPR_KINDS = ["create_keep", "create_keep_with_info", "recv_keep", "create_keep_sequential", "recv_keep_sequential", "create_context", "recv_context",
+             "create_context_refused_body", "recv_context_refused_body",
              "create_measure", "recv_measure", "create_rsp", "recv_rsp"]
 # (an entanglement operation inside an SDK loop, and using the handles returned next to a non-sequential post routine,
 #  are not usages the SDK documents; they are not part of the sequences)
@@ -163,6 +164,19 @@ def _run_epr(item):
             stream(2)
             with sock.recv_context(2) as (q, p):
                 q.measure()
+        elif kind in ("create_context_refused_body", "recv_context_refused_body"):
+            # the body makes an SDK call that is refused part-way; the application catches the error and carries on:
+            # the operation is over (the context closed), its registers must be free again
+            if kind.startswith("recv"):
+                stream(2)
+            try:
+                with (sock.create_context(2) if kind.startswith("create") else sock.recv_context(2)) as (q, p):
+                    q.measure()
+                    q.measure()
+            except Exception:
+                pass
+            else:
+                raise RuntimeError("rig: the second measurement of the pair's qubit was not refused")
         elif kind == "create_measure":
             sock.create_measure(2)
         elif kind == "recv_measure":
